@@ -559,3 +559,202 @@ def check_c12(tier, replay):
                 {"consts": base_consts(Values=["v3", "v5"], MetaFolders=["f1", "d"], Enabled=C12_ENABLED),
                  "max_len": 80}]
     return account_check("C12", tier, replay, inst, rule, ACCOUNT_ASSUME)
+
+
+# ---------------------------------------------------------------------------
+# Sync.tla  <->  LocalAccount devices + server Backend: C04 C05 (C09)
+
+SYNC_ACTIONS = ["AEdit", "AQuiesce", "AReqStatus", "AReqSync", "AMergeReply", "AReqScan", "AReqDiff",
+                "AReqPatch", "ARewindLocal"]
+SYNC_INVS = ["TypeOK", "QuiescentConverged", "NoLoss", "OnlyCommitted", "NoDup", "NoAcceptedDropped"]
+SYNC_DEVS = {"ScanLeafOnly": "QuiescentConverged", "LocateByHash": "QuiescentConverged"}
+_UNUSED = {
+             "MergeNoDedup": "NoDup"}
+REQ_KIND = {"ReqStatus": "status", "ReqScan": "scan", "ReqDiff": "diff", "ReqPatch": "patch",
+            "ForceMerge": "diffall"}
+
+
+def sync_cfg(wd, name, consts, invariants=True, properties=True):
+    cfg = vlib.render_cfg("MC_Sync.cfg", consts, os.path.join(wd, name + ".cfg"))
+    txt = open(cfg).read()
+    if not properties:
+        i = txt.find("PROPERTIES")
+        j = txt.find("CHECK_DEADLOCK", i)
+        txt = txt[:i] + txt[j:]
+    if not invariants:
+        i = txt.find("INVARIANTS")
+        j = txt.find("PROPERTIES", i) if "PROPERTIES" in txt else txt.find("CHECK_DEADLOCK", i)
+        txt = txt[:i] + "INVARIANTS\n  TypeOK\n" + txt[j:]
+    open(cfg, "w").write(txt)
+    return cfg
+
+
+def split_behaviours(edges, init_key):
+    out, cur = [], []
+    for e in edges:
+        if json.dumps(e["from"], sort_keys=True) == init_key and cur:
+            out.append(cur)
+            cur = []
+        cur.append(e)
+    if cur:
+        out.append(cur)
+    return out
+
+
+def macro_steps(beh, k):
+    """Collapse the request-level steps of a sequential behaviour into Sync(d) steps."""
+    steps, i = [], 0
+    while i < len(beh):
+        e = beh[i]
+        if e["act"] in ("Edit", "Quiesce"):
+            steps.append({"act": e["act"], "args": e["args"],
+                          "to": {"log": e["to"]["log"], "srv": e["to"]["srv"]}})
+            i += 1
+            continue
+        if e["act"] != "ReqStatus":
+            return None, False   # behaviour cut in the middle of a call
+        d = e["args"][0]
+        route = []
+        devs = set()
+        j = i
+        last = None
+        while j < len(beh):
+            f = beh[j]
+            if f["args"] and f["args"][0] != d:
+                return None, False
+            if f["act"] == "ReqSync":
+                if f["to"]["pc"][d] == "reply":
+                    route.append("sync")
+            elif f["act"] in REQ_KIND:
+                route.append(REQ_KIND[f["act"]])
+            last = f
+            devs.update(f.get("dev") or [])
+            j += 1
+            if f["to"]["pc"][d] == "idle":
+                break
+        if last is None or last["to"]["pc"][d] != "idle":
+            break   # truncated: drop the unfinished call
+        steps.append({"act": "Sync", "args": [d], "route": route, "res": last["res"][d],
+                      "dev": sorted(devs),
+                      "to": {"log": last["to"]["log"], "srv": last["to"]["srv"]}})
+        i = j
+    settled = False
+    if beh:
+        st = beh[-1]["to"]
+        settled = bool(st["quiesced"]) and all(v == "idle" for v in st["pc"].values()) and \
+            all(r >= k for r in st["rounds"].values()) and i >= len(beh)
+    return steps, settled
+
+
+def sync_check(prop, tier, replay):
+    t0 = time.time()
+    wd = vlib.workdir("%s_%s" % (prop, tier))
+    known = vlib.known_keys(prop)
+    all_known = {}
+    for p in ("C04", "C05", "C09"):
+        all_known.update(vlib.known_keys(p))
+    scratch = vlib.scratch_base(prop)
+    devices = ["a", "b"]
+    if replay:
+        vlib.cargo_build()
+        v = json.load(open(replay))
+        d = v.get("detail", v)
+        pfile = os.path.join(wd, "replay.ndjson")
+        with open(pfile, "w") as f:
+            f.write(json.dumps(d["path"]) + "\n")
+        summ = vlib.run_harness([vlib.harness_bin("replay"), "sync", pfile, scratch, prop],
+                                env={"VERIF_KNOWN": ",".join(sorted(all_known))})
+        for x in summ["violations"]:
+            log("REPLAY-DIVERGENCE " + x["summary"][:1500])
+        return 1 if summ["violations"] else 0
+    base = {"Devices": '{"a", "b"}', "MaxEdits": "2", "Times": "{1, 2}", "Names": '{"n1"}',
+            "EditKinds": '{"new", "upd", "del"}', "ScanLimit": "2", "K": "2", "Mode": '"sequential"',
+            "Deviations": "{}", "EmitEdges": "FALSE"}
+    k = 2
+    nsim = 120 if tier == "quick" else 1500
+    # (1) the properties on the intended design, exhaustively
+    cfg = sync_cfg(wd, "prop", base)
+    r = vlib.run_tlc("MC_Sync", cfg, prop + "p", timeout_s=3000, heap="12g")
+    if r.violated:
+        raise ToolError("intended Sync spec violates %s" % r.violated)
+    for a in SYNC_ACTIONS:
+        if a not in r.coverage or r.coverage[a][1] == 0:
+            raise ToolError("vacuous: action %s never fired" % a)
+    states, trans = r.distinct, r.generated
+    cov = {a: list(r.coverage[a]) for a in SYNC_ACTIONS}
+    # (2) every listed deviation still breaks its invariant on the model
+    devs_on = sorted(d for d in SYNC_DEVS if d in all_known)
+    for dev in devs_on:
+        cfg = sync_cfg(wd, "dev_" + dev, dict(base, Deviations=dev_set([dev])), properties=False)
+        rr = vlib.run_tlc("MC_Sync", cfg, prop + "d" + dev, coverage=False, timeout_s=3000, heap="12g")
+        if SYNC_DEVS[dev] not in rr.violated and not rr.violated:
+            raise ToolError("deviation %s no longer breaks the model (stale finding)" % dev)
+    # (3) behaviours of the code-faithful model (listed deviations on) by simulation
+    edges = []
+    cfg = sync_cfg(wd, "sim", dict(base, Deviations=dev_set(devs_on), EmitEdges="TRUE"),
+                   invariants=False, properties=False)
+    vlib.run_tlc("MC_Sync", cfg, prop + "s", coverage=False, workers=1, simulate=(nsim, 46),
+                 timeout_s=600, tag_sink=lambda tag, obj: edges.append(obj) if tag == "EDGE" else None)
+    if not edges:
+        raise ToolError("TLC emitted no behaviours")
+    init_key = json.dumps(edges[0]["from"], sort_keys=True)
+    behs = split_behaviours(edges, init_key)
+    vlib.cargo_build()
+    paths = []
+    for b in behs:
+        steps, settled = macro_steps(b, k)
+        if not steps:
+            continue
+        paths.append({"devices": devices, "client_backend": "fs", "server_backend": "fs",
+                      "settled": settled, "steps": steps})
+    # alternate backends across behaviours
+    combos = [("fs", "fs"), ("db", "db"), ("fs", "db"), ("db", "fs")]
+    for i, p in enumerate(paths):
+        p["client_backend"], p["server_backend"] = combos[i % 4]
+    chunks = 12
+    files = [open(os.path.join(wd, "paths_%02d.ndjson" % i), "w") for i in range(chunks)]
+    for i, p in enumerate(paths):
+        files[i % chunks].write(json.dumps(p) + "\n")
+    for f in files:
+        f.close()
+    inputs = [os.path.join(wd, "paths_%02d.ndjson" % i) for i in range(chunks)
+              if os.path.getsize(os.path.join(wd, "paths_%02d.ndjson" % i)) > 0]
+    summ = vlib.run_harness_parallel(
+        lambda p: [vlib.harness_bin("replay"), "sync", p, os.path.join(scratch, os.path.basename(p)[:8]), prop],
+        inputs, jobs=12, timeout_s=3000, env={"VERIF_KNOWN": ",".join(sorted(all_known))})
+    cover = {
+        "states": states, "transitions": trans,
+        "traces_validated_against_impl": summ["evaluated"],
+        "evaluations": summ["evaluated"], "impl_steps_compared": summ["steps"],
+        "distinct_nontrivial": len(set(summ["nontrivial_keys"])),
+        "rule": "TLC checks the invariants of Sync.tla exhaustively on the sequential instance; behaviours "
+                "of the code-faithful model are drawn by TLC simulation (seeded) and each is replayed on real "
+                "LocalAccount devices syncing through a real server Backend with the real AutoMerge code; "
+                "after every edit and every sync call the record streams (event, time) of every device and "
+                "of the server, the call result and the request route are compared with the spec; at the "
+                "end of settled behaviours all sync statuses and decrypted folders must be equal. "
+                "Non-trivial = behaviour containing a sync that needed more than status+sync requests; "
+                "distinct by action sequence.",
+        "exhaustive": False, "model_exhaustive": True, "constants": base,
+        "simulated_behaviours": len(behs), "settled_behaviours": sum(1 for p in paths if p["settled"]),
+        "action_coverage": cov, "samples": summ["samples"][:3],
+        "deviations_modelled": devs_on, "counters": summ["counters"],
+        "model_mismatches": len(summ["mismatches"]),
+    }
+    assumptions = ["in-process SyncClient = the axum handlers of sos_server (same locks and server_helpers calls, "
+                   "requests/responses round-tripped through the protobuf encoding)",
+                   "CommitTree.tla lemmas; harness/src/sync_world.rs projection (hash -> term learned at edit time)"]
+    vlib.write_evidence(prop, tier, "model_checking", cover, assumptions, time.time() - t0,
+                        len(summ["violations"]))
+    known_hits = [dict(k2, **all_known[k2["key"]]) for k2 in summ["known"] if k2["key"] in all_known]
+    return vlib.finish(prop, summ["violations"], known_hits)
+
+
+@register("C04")
+def check_c04(tier, replay):
+    return sync_check("C04", tier, replay)
+
+
+@register("C05")
+def check_c05(tier, replay):
+    return sync_check("C05", tier, replay)
